@@ -123,6 +123,21 @@ func Do(c *sim.Cluster, a Action) error {
 		}
 		return c.JoinAccepted(a.A, r)
 	case "FF":
+		if a.Lim > 0 {
+			// only once some peer offers an anchor block with index >= Lim
+			best := -1
+			for _, n := range c.Nodes {
+				if n == nil || n.Down || n.Silent || n.Idx == a.A {
+					continue
+				}
+				if ab := n.Node.VHashgraph().AnchorBlock; ab != nil && *ab > best {
+					best = *ab
+				}
+			}
+			if best < a.Lim {
+				return fmt.Errorf("no anchor with index >= %d yet", a.Lim)
+			}
+		}
 		if a.B > 0 {
 			return c.FastForward(a.A, &sim.Plan{FFFrom: a.B})
 		}
